@@ -69,6 +69,12 @@ func factsConditions() {
 		{"condPlotGetB", "poc/engine/massdb/massdb.v1", "HashMapB.Get", []string{"target := hm.offset + int(key)*recordSize*2", "hm.data.ReadAt(proof[:recordSize*2], int64(target))", "return proof[:recordSize], proof[recordSize : recordSize*2], nil"}},
 		{"condPlotCheckpoint", "poc/engine/massdb/massdb.v1", "HashMap.UpdateCheckpoint", []string{"binary.LittleEndian.PutUint64(checkpointByte[:], uint64(hm.checkpoint))", "hm.data.WriteAt(checkpointByte[:], PosCheckpoint)"}},
 		{"condPlotGetProof", "poc/engine/massdb/massdb.v1", "MassDBV1.GetProof", []string{"mdb.HashMapB.Get(pocutil.CutHash(challenge, bl))", "poc.VerifyProof(proof, mdb.pubKeyHash, challenge, filter)"}},
+		{"condSnaclMarshal", "poc/wallet/keystore/snacl", "SecretKey.Marshal", []string{"marshalled := make([]byte, KeySize+sha256.Size+24)", "copy(b[:KeySize], params.Salt[:])", "copy(b[:sha256.Size], params.Digest[:])",
+			"binary.LittleEndian.PutUint64(b[:8], uint64(params.N))", "binary.LittleEndian.PutUint64(b[:8], uint64(params.R))", "binary.LittleEndian.PutUint64(b[:8], uint64(params.P))"}},
+		{"condSnaclUnmarshal", "poc/wallet/keystore/snacl", "SecretKey.Unmarshal", []string{"len(marshalled) != KeySize+sha256.Size+24", "return ErrMalformed", "copy(params.Salt[:], marshalled[:KeySize])", "copy(params.Digest[:], marshalled[:sha256.Size])",
+			"params.N = int(binary.LittleEndian.Uint64(marshalled[:8]))", "params.R = int(binary.LittleEndian.Uint64(marshalled[:8]))", "params.P = int(binary.LittleEndian.Uint64(marshalled[:8]))"}},
+		{"condSnaclDerive", "poc/wallet/keystore/snacl", "SecretKey.DeriveKey", []string{"sk.deriveKey(password)", "digest := sha256.Sum256(sk.Key[:])", "subtle.ConstantTimeCompare(digest[:], sk.Parameters.Digest[:]) != 1", "return ErrInvalidPassword"}},
+		{"condSnaclDecrypt", "poc/wallet/keystore/snacl", "CryptoKey.Decrypt", []string{"len(in) < NonceSize", "return nil, ErrMalformed", "copy(nonce[:], in[:NonceSize])", "blob := in[NonceSize:]", "secretbox.Open(nil, blob, &nonce, (*[KeySize]byte)(ck))", "return nil, ErrDecryptFailed"}},
 		{"condMinerSearch", mn, "syncGetBestProof", []string{"workSlot > nowSlot+allowAhead", "i <= nowSlot+allowAhead", "quality.Cmp(bestQuality) > 0", "bestQuality.Cmp(pocTemplate.GetTarget(pocTemplate.Timestamp)) > 0", "bestQuality.SetUint64(0)", "uint64(pocTemplate.Timestamp.Unix()) / pocSlot"}},
 		{"condMinerSubmit", mn, "submitBlock", []string{"time.Now().After(block.MsgBlock().Header.Timestamp)", "m.minedHeight[block.Height()] = struct{}{}"}},
 		{"condMinerDouble", mn, "solveBlock", []string{"m.minedHeight[pocTemplate.Height]", "errAvoidDoubleMining", "m.SpaceKeeper.SignHash(tProof.proof.SpaceID, pocHash)"}},
@@ -217,6 +223,8 @@ func factsKeeper() {
 		"LenFileCode", "LenVersion", "LenBitLength", "LenType", "LenCheckpoint", "LenPubKeyHash", "LenPubKey"} {
 		intFact("plot"+n, "poc/engine/massdb/massdb.v1", n)
 	}
+	intFact("snaclKeySize", "poc/wallet/keystore/snacl", "KeySize")
+	intFact("snaclNonceSize", "poc/wallet/keystore/snacl", "NonceSize")
 	intFact("plotDbVersion", "poc/engine/massdb/massdb.v1", "dbVersion")
 	for _, n := range []string{"maxPrePlotMem", "maxPlotMem", "minPrePlotMem", "minPlotMem"} {
 		intFact("plot"+strings.ToUpper(n[:1])+n[1:], "poc/engine/massdb/massdb.v1", n)
